@@ -11,6 +11,8 @@
    rule (list with integral elements exactly at the consulted indices, through that operation,
    then a multiplication) and run on the implementation: flag true with a non-whole value, or a
    wrong product, is the failing input.
+   Also: every party inputs its OWN value (flags must not depend on the local value), and rules
+   granting integrality to public-int list operands are run with public ints.
 4. Random fixed-point programs over scalars and MIXED-integrality lists through the
    flag-setting operations: after each result, flag true => whole number (value opened), value
    against an exact oracle; flags and values of the modelled operations are compared with the
@@ -33,7 +35,10 @@ MANIFEST = {
             'sites are translated (one flag per array) but not executed (/venv has no NumPy). Sites with constant-true rules '
             '(sgn, lsb, to_bits, random bits, unit vectors, indexOf) are checked dynamically only. Guards (raise unless '
             'integral) are listed, not part of the list obligation. prod/pow chains, division: dynamic only. '
-            'Open findings: first-element rule at the sites named in known_findings/C03.json.',
+            'flag_sound_prog (induction over whole programs) is not stated: soundness is proved per operation (sound_mul etc. are '
+            'preservation lemmas). Open findings (known_findings/C03.json): first-element rule at 10 sites; mpc.input takes the flag '
+            'of all received sharings from the local party\'s own value (parties disagree); vector_add/vector_sub add public ints '
+            'unscaled while marking the result integral.',
     'technique': 'Coq proof over scaled-integer model + regenerated rule table with compiled coverage obligation + synthesised witness programs',
 }
 
@@ -623,6 +628,51 @@ def model_expr(rec, p):
     return None
 
 
+def public_int_probe(ctx, Sim, sites):
+    """Rules that grant integrality because a list operand consists of PUBLIC ints
+    (Pub "isinstance(P[0], int)"): run the operation with public ints for P; flag => whole."""
+    for site in sites:
+        if site['kind'] == 'guard' or not site['func'].startswith('Runtime.'):
+            continue
+        pubs = [t for (t,) in expr_names(site['expr'], 'Pub')]
+        ps = {m_.group(1) for t in pubs for m_ in [re.match(r'isinstance\((\w+)\[0\], int\)$', t)] if m_}
+        ps &= set(site['required'])
+        if not ps:
+            continue
+        fn = site['func'].split('.')[-1]
+        for (l, f) in [(32, 16), (16, 8)]:
+            rec = {}
+
+            async def prog(mpc, mods, pid, l=l, f=f, rec=rec):
+                secfxp = mpc.SecFxp(l, f)
+                args = []
+                for pname in site['required']:
+                    if pname == 'self':
+                        continue
+                    args.append([2, 3] if pname in ps else [secfxp(1), secfxp(2)])
+                try:
+                    z = getattr(mpc, fn)(*args)
+                    zs = [a for a in flatten(z) if isinstance(a, mpc.SecureFixedPoint)]
+                    rec['outs'] = [(int(await mpc.output(a, raw=True)), bool(a.integral)) for a in zs]
+                except Exception as exc:  # noqa
+                    rec['exc'] = repr(exc)[:200]
+            sim = Sim(m=1, t=0, seed=ctx.seed)
+            try:
+                sim.start()
+                sim.run(prog, idle_limit=3000, spins=20)
+            finally:
+                quiet_close(sim)
+            ctx.case({'public_int_probe': site['key'], 'type': [l, f]}, nontrivial=True, kind='public-int-operand')
+            bad = [(v, fl) for (v, fl) in rec.get('outs', []) if fl and v % 2 ** f]
+            if bad:
+                ctx.violation('flag-public-int-operand site=%s' % fn,
+                              {'site': site['key'], 'rule': site['expr'], 'type': [l, f],
+                               'inputs': {p: ([2, 3] if p in ps else [1, 2]) for p in site['required'] if p != 'self'},
+                               'results_scaled_and_flags': rec['outs'],
+                               'wrong': 'public ints are added unscaled; result marked integral but not whole'})
+                break
+
+
 def input_flag_test(ctx, Sim):
     """Every party inputs its OWN value; the flags each party attaches to the m received sharings must
     be sound (flag => whole) at every party -- they may not depend on the local party's own value."""
@@ -743,6 +793,7 @@ def run(ctx):
     found = run_search(ctx, Sim, failing, sites)
     failing_fns = {next(s for s in sites if s['key'] == k)['func'].split('.')[-1] for k in failing}
     input_flag_test(ctx, Sim)
+    public_int_probe(ctx, Sim, sites)
     # ---- 3. random programs
     ctx.rule = ('case = one operation instance inside a random fixed-point program (type, operation, opened operand values '
                 'and flags); non-trivial when an operand list has mixed integrality or a truncation/skip decision is taken; '
